@@ -522,7 +522,7 @@ func TestC13(t *testing.T) {
 	st.Note("full product: %d parameter states (ordinary unset/null/non-null, positional incl. $10, $@, $*, specials) x 14 operators x operator words (literal, quoted, $var, \"$var\", laziness canary, patterns) x unquoted/double-quoted x nounset on/off x 5 IFS settings = %d cells", len(states), idx)
 
 	// (b) random values and words
-	n := 100000
+	n := 1200000
 	if thorough() {
 		n = 30000000
 	}
